@@ -4,7 +4,7 @@
     the per-run translator obligations and the correspondence), about the Thomas solver, and about the drivers. *)
 From Coq Require Import Reals List Lra Lia.
 From Dadi Require Import Base.Num Base.NumR Model.Tridiag Model.Scheme Model.NDSweep
-  Proofs.TridiagProofs Proofs.SchemeProofs Proofs.Drivers.
+  Proofs.TridiagProofs Proofs.SchemeProofs Proofs.Drivers Proofs.NDLines Proofs.NDSweepProofs.
 Import ListNotations.
 Local Open Scope R_scope.
 
@@ -40,6 +40,32 @@ Theorem C02_step_solves_scheme : forall xs Vf Mf nu c0 c1 dt use_delj, (2 <= len
     + bcterm xs Mf nu c0 c1 i * nthF u i = nthF phi i / dt.
 Proof. exact line_solve_solves. Qed.
 Print Assumptions C02_step_solves_scheme.
+
+(** d dimensions, any axis k, any shape: line (o,q) of the swept array is the implicit step applied to line (o,q)
+    of the input, with migration from every other population evaluated at that line's other-coordinates and the
+    absorbing terms switched on exactly when all of them are 0 (resp. 1) *)
+Theorem C02_sweep_lines_any_dimension : forall shape grids pops k p, nth_error pops k = Some p ->
+  length (nth k grids []) = ax_len shape k -> forall dt dj phi o q,
+  (o < ax_outer shape k)%nat -> (q < ax_inner shape k)%nat ->
+  get_line shape k (sweep shape grids pops k dt dj phi) o q =
+  line_solve (nth k grids []) (Vfunc_beta (p_nu p) (p_beta p)) (Mline shape grids k p o q) (p_nu p)
+             (corner0 shape grids k o q) (corner1 shape grids k o q) dt dj (get_line shape k phi o q).
+Proof. exact sweep_lines. Qed.
+
+Theorem C02_sweep_solves_scheme_any_dimension : forall shape grids pops k p, nth_error pops k = Some p ->
+  length (nth k grids []) = ax_len shape k -> forall dt dj phi o q, (2 <= ax_len shape k)%nat ->
+  (o < ax_outer shape k)%nat -> (q < ax_inner shape k)%nat ->
+  nonzero (all_pivots (line_rows (nth k grids []) (Vfunc_beta (p_nu p) (p_beta p)) (Mline shape grids k p o q) (p_nu p)
+                                 (corner0 shape grids k o q) (corner1 shape grids k o q) dt dj (get_line shape k phi o q))) ->
+  let u := get_line shape k (sweep shape grids pops k dt dj phi) o q in
+  forall i, (i < ax_len shape k)%nat ->
+    nthF u i / dt
+    + dfactor (nth k grids []) i * (fluxR (nth k grids []) (Vfunc_beta (p_nu p) (p_beta p)) (Mline shape grids k p o q) dj (nthF u) i
+                                   - fluxL (nth k grids []) (Vfunc_beta (p_nu p) (p_beta p)) (Mline shape grids k p o q) dj (nthF u) i)
+    + bcterm (nth k grids []) (Mline shape grids k p o q) (p_nu p) (corner0 shape grids k o q) (corner1 shape grids k o q) i * nthF u i
+    = nthF (get_line shape k phi o q) i / dt.
+Proof. exact sweep_solves_scheme. Qed.
+Print Assumptions C02_sweep_solves_scheme_any_dimension.
 
 (** absorbing terms exist only on the all-zero / all-one corner lines *)
 Lemma bcterm_off_corner xs Mf nu i : bcterm xs Mf nu false false i = 0.
